@@ -23,13 +23,13 @@ func (c16) Budget(tier string) (int, int) {
 	return 50000, 25
 }
 func (c16) Rule() string {
-	return "seeded histories of 1-8 operations. Appending functions (ReadStringBytes, UnescapeStringContent, StdLibCompatibleStringBytes) run with a dirty destination (fault D-dirty: recognisable prefix of length 0/1/5/37, poisoned spare capacity of 0,1,2,3,4,len-1,len,len+1,4*len+16,len+1024 bytes - all 40 combinations enumerated per (function, input) in the thorough tier) and with an empty one: success and prefix++result must agree. Scratch functions (ReadString, DecodeString) run with nil / empty / dirty / too-small scratch that is reused by later operations. Every exported function runs on inputs allocated with poisoned spare capacity whose whole [:cap] is compared afterwards (also after failing calls). Fault X-overwrite: after an operation returns, its input (incl. spare capacity), scratch and destination are overwritten; every string and tree returned so far is re-compared with its snapshot after every later step. Non-trivial: a fault fired; distinct = distinct hashes of (operation, document class, destination config, outcome) sequences."
+	return "seeded histories of 1-8 operations. Appending functions (ReadStringBytes, UnescapeStringContent, StdLibCompatibleStringBytes) run with a dirty destination (fault D-dirty: existing contents of length 0/1/5/37 that are an ASCII pattern or end in the middle of a multi-byte UTF-8 sequence, poisoned spare capacity of 0,1,2,3,4,len-1,len,len+1,4*len+16,len+1024 bytes - all 40 combinations enumerated per (function, input) in the thorough tier) and with an empty one: success and prefix++result must agree. Scratch functions (ReadString, DecodeString) run with nil / empty / dirty / too-small scratch that is reused by later operations. Every exported function runs on inputs allocated with poisoned spare capacity whose whole [:cap] is compared afterwards (also after failing calls). Fault X-overwrite: after an operation returns, its input (incl. spare capacity), scratch and destination are overwritten; every string and tree returned so far is re-compared with its snapshot after every later step. Non-trivial: a fault fired; distinct = distinct hashes of (operation, document class, destination config, outcome) sequences."
 }
 func (c16) Assumptions() []string {
 	return []string{"results of failing calls are not constrained (the property speaks of success)", "inputs are sampled (string tokens with every escape kind, raw invalid UTF-8, documents of all classes)"}
 }
 func (c16) Required(tier string) []string {
-	return []string{"D-dirty", "X-overwrite", "dst-grew", "dst-fit-exactly", "escape-with-dirty-dst", "scratch-reused-by-later-call", "failing-call-input-checked", "tree-snapshot-rechecked"}
+	return []string{"D-dirty", "X-overwrite", "dst-grew", "dst-fit-exactly", "escape-with-dirty-dst", "scratch-reused-by-later-call", "failing-call-input-checked", "tree-snapshot-rechecked", "dst-ends-mid-sequence-input-starts-with-continuation", "empty-container-returned-then-reader-reused"}
 }
 
 var dstPrefixLens = []int{0, 1, 5, 37}
@@ -68,10 +68,17 @@ func mkDst(cfg, inLen int) []byte {
 	if spare < 0 {
 		spare = 0
 	}
+	// existing contents: a recognisable ASCII pattern, or (cfg > 40) contents that end in the
+	// middle of a multi-byte UTF-8 sequence, which the bytes appended next could complete
+	partial := [][]byte{nil, {0xe2, 0x82}, {0xe2}, {0xf0, 0x9f, 0x98}, {0xf0}, {0xc3}}[(cfg/40)%6]
+	if len(partial) > pl {
+		pl = len(partial)
+	}
 	b := make([]byte, pl+spare)
 	for i := 0; i < pl; i++ {
 		b[i] = byte(0x50 + i%16)
 	}
+	copy(b[pl-len(partial):pl], partial)
 	for i := pl; i < len(b); i++ {
 		b[i] = 0xEE
 	}
@@ -108,6 +115,10 @@ func genStringContentDoc(r *Rand) Doc {
 func genRawBytesDoc(r *Rand) Doc {
 	n := r.Range(0, 60)
 	var b bytes.Buffer
+	if r.Chance(1, 3) {
+		// starts with continuation bytes: the tail of a multi-byte sequence
+		b.Write([][]byte{{0xac}, {0x82, 0xac}, {0x9f, 0x98, 0x80}, {0x98, 0x80}, {0xa9}, {0x80}}[r.Intn(6)])
+	}
 	for i := 0; i < n; i++ {
 		switch r.Pick(4, 2, 2) {
 		case 0:
@@ -136,6 +147,13 @@ func c16DocFor(r *Rand, name string) Doc {
 	case "StdLibCompatibleStringBytes", "StdLibCompatibleString":
 		return genRawBytesDoc(r)
 	}
+	if (len(name) > 3 && name[:3] == "VR.") || name == "ReadObject" || name == "ReadArray" || name == "ReadValue" {
+		if r.Chance(1, 2) {
+			// small and empty containers: what a reader might be tempted to recycle
+			small := []string{"{}", "[]", " {} ", "[ ]", `{"a":1}`, `[1]`, `{"a":{}}`, `[[]]`, `{"k":"v","l":[1,2]}`, `[{"a":"\n"}]`, `"str"`, `"s\tt"`}
+			return docOf([]byte(small[r.Intn(len(small))]), "small-container")
+		}
+	}
 	switch r.Pick(3, 3, 1, 2) {
 	case 0:
 		return genDoc(r, "tiny")
@@ -153,7 +171,8 @@ func (c16) Gen(r *Rand, sc *Scenario, tier string) {
 		// all 40 destination configurations for one (function, input)
 		name := c16Appenders[r.Intn(3)]
 		sc.Docs = []Doc{c16DocFor(r, name)}
-		for cfg := 1; cfg <= 40; cfg++ {
+		style := 40 * r.Intn(6)
+		for cfg := 1 + style; cfg <= 40+style; cfg++ {
 			ops = append(ops, Op{Kind: name, Doc: 0, B: cfg, C: r.Intn(2)})
 		}
 		sc.Tasks = [][]Op{ops}
@@ -176,6 +195,9 @@ func (c16) Gen(r *Rand, sc *Scenario, tier string) {
 		op := Op{Kind: name, Doc: i, Tape: genDecisionTape(r, r.Range(0, 12), true)}
 		if !faultFree {
 			op.B = r.Range(1, 40)
+			if r.Chance(1, 3) {
+				op.B = r.Range(1, 240)
+			}
 			op.C = r.Intn(2) // overwrite after return
 			if r.Chance(1, 5) {
 				op.B = 0
@@ -258,6 +280,9 @@ func (c16) Exec(sc *Scenario, st *Stats) *Violation {
 		if isAppender {
 			x.dst = mkDst(op.B, len(data))
 			origCap = cap(x.dst)
+			if op.B > 40 && len(data) > 0 && data[0] >= 0x80 && data[0] < 0xc0 {
+				st.probe("dst-ends-mid-sequence-input-starts-with-continuation")
+			}
 			prefix = append([]byte(nil), x.dst...)
 			if op.B != 0 {
 				st.fault("D-dirty")
@@ -281,6 +306,9 @@ func (c16) Exec(sc *Scenario, st *Stats) *Violation {
 			}
 		}
 		tgBefore := *tg
+		if d.Class == "small-container" && oi > 0 {
+			st.probe("empty-container-returned-then-reader-reused")
+		}
 		out := runAPI(op.Kind, x, data)
 		if out.Panic != "" {
 			// totality belongs to C10; but the input must be intact even so
